@@ -460,7 +460,7 @@ def prop_qm(line, impl, model):
                 got_dead[int(item.split("!")[0])] = item
         if closed and o[0] == "w":
             ad = int(o[1:].split(":")[0])
-            if (ad in got_live) != (ad in live) or (ad in live and got_live[ad][0] != live[ad][0]):
+            if (ad in got_live) != (ad in live) or (ad in live and got_live[ad][0] != live[ad][0] and unrefreshed.get(ad) != got_live[ad][0]):
                 return "after-close: WriteTo on the closed conn touched the client map (client %d: %s) %s" % (
                     ad, "record created" if ad not in live else "last seen %d, was %d" % (got_live[ad][0], live[ad][0]), where)
         for ad, rec in live.items():
@@ -477,12 +477,13 @@ def prop_qm(line, impl, model):
             if cont != render_q(rec[2]):
                 return "contents-lost: client %d's queue holds %s, expected %s %s" % (ad, cont[:60], render_q(rec[2])[:60], where)
             if seen != rec[0]:
-                if o[0] == "w" and not closed and int(o[1:].split(":")[0]) == ad and seen < rec[0]:
+                if (o[0] == "o" or (o[0] == "w" and not closed)) and int(o[1:].rsplit("@", 1)[0].split(":")[0]) == ad and seen < rec[0]:
                     unrefreshed[ad] = seen
                     if pending is None:
-                        pending = ("early-removal: WriteTo to client %d at %d accepted the packet but left the client's record at last seen %d "
-                                   "(being written to counts as being seen): a sweep between %d and %d discards the queue with packets written "
-                                   "less than the timeout %d before %s" % (ad, rec[0], seen, seen + T, rec[0] + T - 1, T, where))
+                        pending = ("early-removal: %s for client %d at %d left the client's record at last seen %d (being written to, "
+                                   "and having the queue fetched, both count as being seen): a sweep between %d and %d discards the queue "
+                                   "less than the timeout %d after the client was seen %s" % (
+                                       "WriteTo" if o[0] == "w" else "OutgoingQueue", ad, rec[0], seen, seen + T, rec[0] + T - 1, T, where))
                 elif unrefreshed.get(ad) != seen:
                     return "other: client %d last seen %d, expected %d %s" % (ad, seen, rec[0], where)
             else:
